@@ -485,7 +485,7 @@ def cumsum(x, axis=None, dtype=None, out=None, method="sequential"):
         dtype,
         out=out,
         method=method,
-        preop=np.sum,
+        preop=np.sum if dtype is None else partial(np.sum, dtype=dtype),
     )
 
 
@@ -521,7 +521,7 @@ def cumprod(x, axis=None, dtype=None, out=None, method="sequential"):
         dtype,
         out=out,
         method=method,
-        preop=np.prod,
+        preop=np.prod if dtype is None else partial(np.prod, dtype=dtype),
     )
 
 
@@ -558,7 +558,7 @@ def nancumsum(x, axis, dtype=None, out=None, *, method="sequential"):
         dtype,
         out=out,
         method=method,
-        preop=np.nansum,
+        preop=np.nansum if dtype is None else partial(np.nansum, dtype=dtype),
     )
 
 
@@ -595,7 +595,7 @@ def nancumprod(x, axis, dtype=None, out=None, *, method="sequential"):
         dtype,
         out=out,
         method=method,
-        preop=np.nanprod,
+        preop=np.nanprod if dtype is None else partial(np.nanprod, dtype=dtype),
     )
 
 
